@@ -42,7 +42,11 @@ CLAIM = {
             'negative witness proved for duplicates); the parameters object is a state machine (add / replace / remove '
             '/ set_unpack_parameter, rejected calls included) and after ANY two histories that leave the same content '
             '(same dictionary, same unpacked set) every look-up agrees, i.e. a look-up equals the one on a freshly built '
-            'object: no stale derived state (lookup_no_stale_state). The model is tied to runner.py / parameters.py / results.py '
+            'object: no stale derived state (lookup_no_stale_state); every look-up commutes with any INJECTIVE renaming of '
+            'the parameter values (lookup_exact: values are compared exactly, closeness plays no role; distinct listed values '
+            'resolve to distinct positions, close_values_looked_up_separately; a setter stores every new value, '
+            'setter_takes_effect_for_every_new_value); refilling a container bound to two parameters is the replacement of both '
+            'lists in either order (refill_of_shared_container). The model is tied to runner.py / parameters.py / results.py '
             'by exact comparison of call logs, runned_reps, stored statistics, partial files and lookups on seeded '
             'and exhaustively enumerated small scenarios, and on seeded histories that interleave simulate(), look-ups '
             'and mutations of the parameter set on one runner / one SimulationParameters object (each look-up also '
@@ -102,7 +106,26 @@ CLAIM = {
             'the model these are values. R14 (300 variations with indexes 257 / 299 / 300, 272 = 17x16, rep_max 300, '
             '258 named results per repetition, 258 extra parameters, thorough: 65537 and 258x257 variations): '
             'correspondence + oracle, the theorems are unbounded. All of R8-R14 apply; none exposed a defect of the '
-            'unmodified library.',
+            'unmodified library. R15 (distinct values that are merely close: five families - magnitudes 1e-9..1e-15, '
+            '2.4e9 + 200 b, neighbouring doubles of 0.3, 1.5 + b 2^-43, values 1e-10 apart around 1e-8 - as value lists, '
+            'replacement lists of the same length, fixed values present / absent-next-to-a-present-one; values returned by '
+            'the repetitions 2^ce + o 2^de with ce - de = 20 so that every sum and sum of squares is exact, MISC values 1 ulp / '
+            '2^-40 apart): THEOREMS lookup_exact, close_values_looked_up_separately, setter_takes_effect_for_every_new_value '
+            '(the harness map base integer -> close float is an injective renaming, the model line is unchanged) + '
+            'correspondence + oracle; the partial results on disk after ONE value was replaced by a close one (fixed '
+            'parameter or one list element) lie outside the model (it keys the files by position): first-principles oracle '
+            'only (the call is refused or the changed combinations are run afresh; never a repetition of the old value in a '
+            'stored result). R16 (ONE container per parameter refilled in place between the calls - lists of any length, '
+            'int64 / int16 / float64 / strided arrays -, the same container for two parameters, ONE fixed-values dictionary '
+            'and one 0-d array per value refilled before and scribbled on after every look-up, ONE 0-d index array for '
+            'simulate(index); the answers are compared with the model (for which a refill is a replacement of contents: '
+            'refill_of_shared_container, lookup_no_stale_state, repeated_simulate_fresh), with a freshly built object / runner '
+            'holding a copy of the contents and with first principles; variations, index arrays, value lists and results '
+            'objects handed out earlier are re-compared after the later refills): theorem + correspondence + oracle; the '
+            'results API with one object in two roles (acc.merge_all_results(acc), Result.merge(r, r), one operand merged '
+            'into two collectors, SimulationParameters.create(d) with d refilled) and array-VALUED results: oracle only. '
+            'R16 exposed one defect of the unmodified library, recorded as known (C05:R16:array-value-kept-by-reference: '
+            'Result.update keeps a reference to an array value).',
 }
 
 NAME_POOL = ['a', 'b', 'c', 'aa', 'ab', 'B', 'Z', 'a1', '_x', 'snr', 'SNR', 'M', 'z9']
